@@ -847,6 +847,56 @@ def build_groups(R):
     return groups
 
 
+def rewriting_tie(R):
+    """syntactic tie of the fairness rewriting: the tree returned by get_equivalent_non_fair_formula(a) on live
+    CTL / CTL* / LTL objects equals the tree of the model's unfair_ctl / unfair_ctls (coq/Model/Fair.v).  A difference
+    means the model no longer describes the coded reduction (the behavioural comparison then decides whether the
+    property is affected): reported as no-failing-input-found."""
+    import mccheck
+    rng = random.Random(R.seed + 15)
+    items = []
+    for f in mccheck.ctl_formulas_depth(1):
+        items.append(('CTL', f))
+    for f in rng.sample(mccheck.ctl_formulas_depth(2), 600 if R.thorough else 150):
+        items.append(('CTL', f))
+    pool = mccheck.path_formulas_ops(2, quant=True)
+    for g in rng.sample(pool, min(len(pool), 1500 if R.thorough else 250)):
+        items.append(('CTLS', g))
+    lp = mccheck.path_formulas_ops(2)
+    for g in rng.sample(lp, min(len(lp), 800 if R.thorough else 150)):
+        items.append(('LTL', g))
+        items.append(('LTL', ('A', g)))
+    for _ in range(1500 if R.thorough else 200):
+        items.append(('CTL', rand_ctl(rng, rng.randint(2, 4))))
+        items.append(('CTLS', rand_path(rng, rng.randint(2, 4), quant=True)))
+    cmds, obs = [], []
+    for logic, f in items:
+        L = lang_module(logic)
+        a = rng.choice(['fair', 'fair0', 'x'])
+        o = to_py(f, L)
+        s0 = str(o)
+        r = call(lambda: tree_of(o.get_equivalent_non_fair_formula(a)))
+        obs.append((logic, f, a, r, str(o) == s0))
+        cmds.append(['unfairctl' if logic == 'CTL' else 'unfairctls', Q(a), fsx(f)])
+    outs = model_batch_parallel(cmds)
+    nbad = 0
+    for (logic, f, a, r, same), o in zip(obs, outs):
+        R.evaluations += 1
+        if logic == 'CTL':
+            m = ('ok', fparse(o[1])) if o[0] == 'some' else ('err', 'TypeError')
+        else:
+            m = ('ok', fparse(o))
+        if tuple(r) != m or not same:
+            nbad += 1
+            if nbad <= 10:
+                R.violation('get_equivalent_non_fair_formula differs from the model of the coded reduction' + ('' if same else ' (and modified the formula)'),
+                            {'correspondence': 'fairness rewriting (unfair_ctl / unfair_ctls)', 'logic': logic, 'formula': f, 'formula_str': fstr(f),
+                             'fair_atom': a, 'impl': r, 'model': m}, no_input=same)
+        else:
+            R.count('rewriting_tie_agree')
+    R.cov['rewriting_tie'] = {'compared': len(items), 'differences': nbad}
+
+
 # ----------------------------------------------------------------------------------------------
 def run(R):
     R.rule = ('(K, F) and (K, F, formula, logic): the witnesses of KF-C15-a/b and of the two fixed: entries; every total structure with '
@@ -863,6 +913,7 @@ def run(R):
               'set neither empty nor everything, or the fair reference answer differs from the unconstrained one; distinct by '
               '(structure, F[, logic, formula])')
     R.cov['explanation'] = EXPLANATION
+    rewriting_tie(R)
     groups = build_groups(R)
     t0 = time.time()
     results = run_groups(groups, jobs=min(16, os.cpu_count() or 1))
